@@ -353,6 +353,9 @@ impl<'a, 'tcx> Cx<'a, 'tcx> {
                         let v = adt.variant(*vi);
                         out.push_str(",\"var\":");
                         esc(&v.name.to_string(), out);
+                        if adt.is_enum() {
+                            let _ = write!(out, ",\"dv\":{}", adt.discriminant_for_variant(self.tcx, *vi).val);
+                        }
                         out.push_str(",\"fn\":[");
                         for (i, f) in v.fields.iter().enumerate() {
                             if i > 0 {
